@@ -205,7 +205,11 @@ def run(ctx, out, budget):
                 "round trips, typecheck and comparable text run under a 60 s deadline. Non-trivial = distinct shapes with "
                 "a cycle, a diamond or a collection of >= 2 elements.")
     rng = ctx.rng(0)
-    q = budget == "quick"
+    # "search" (the quick tier looking harder after a change): quick sizes and deadline, more random graphs; the large
+    # sizes and the 60 s deadline belong to the thorough tier only (a change that hangs would otherwise cost a deadline per
+    # scenario)
+    q = budget != "thorough"
+    nrand = 4 if budget == "quick" else (16 if budget == "search" else 60)
     plan = []
     for kind, sizes in (("ring", [1, 2, 50] if q else [1, 2, 3, 50, 500, 2000]),
                         ("self", [1]),
@@ -215,7 +219,7 @@ def run(ctx, out, budget):
                         ("shared_list", [0, 5, 300] if q else [0, 5, 300, 1000, 5000]),
                         ("deep_types", [30] if q else [30, 60]),
                         ("type_diamonds", [3, 45] if q else [3, 20, 45, 80]),
-                        ("random", [3, 8, 20] * (4 if q else 60))):
+                        ("random", [3, 8, 20] * nrand)):
         for sz in sizes:
             plan.append(shape(rng, kind, sz))
     ops_list = [p[0] for p in plan]
